@@ -16,7 +16,7 @@ RULE = (
     "minus S); disabled+keep -> every sentinel line is a Comment with its text. Non-trivial = |S| >= 1."
 )
 ASSUMPTIONS = ["eligibility of a statement for removal is decided by the model", "corpus E + layer-B nests"]
-BOUNDS = {"quick": dict(corpus_k=1, small=["P8"], small_k=2, nest_depth=1, nest_full_limit=120), "thorough": dict(corpus_k=1, small=["P5", "P6", "P8", "Q1", "R1"], small_k=2, k3=["P8"], nest_depth=2, nest_full_limit=3000)}
+BOUNDS = {"quick": dict(corpus_k=1, small=["P8"], small_k=2, nest_depth=1, nest_full_limit=120), "thorough": dict(corpus_k=1, small=["P5", "P6", "P8", "Q1", "R1", "A1"], small_k=2, nest_depth=2, nest_full_limit=400)}
 
 FREE_VARIANTS = ["indent", "col1", "cont-amp", "cont-amp-tight", "cont-noamp", "cont-in-literal"]
 FIXED_VARIANTS = ["!$", "c$", "C$", "*$", "!$cont", "c$cont", "!$cont-in-literal"]
